@@ -380,6 +380,19 @@ def run(prop, tier, seed, replay=None):
             rep.machinery_failure(f"model-level counter-example: {mc.violated} fails in Build.tla ({cfg})")
         elif mc.rc != 0 or not mc.finished:
             rep.machinery_failure(f"Build.tla did not finish ({cfg}, rc={mc.rc}): {mc.out[-600:]}")
+    if prop == "C19" and thorough:
+        # unbounded in the number of calls and the length of behaviours: the inductive invariant of Build.tla for the C19
+        # configuration (spec/MC_BuildApa.tla), discharged by Apalache; three vacuity controls must be violated
+        obligations = [("Init", "IndInv", 0, "NoError"), ("IndInit", "IndInv", 1, "NoError"), ("IndInit", "Safe", 0, "NoError"),
+                       ("IndInit", "NobodyDispatches", 0, "Error"), ("IndInit", "NobodyRegistersSecond", 0, "Error"),
+                       ("IndInit", "NobodyCompiledWithPeek", 0, "Error")]
+        apa = []
+        for init, inv, length, want in obligations:
+            outcome, wall = tlc.run_apalache("MC_BuildApa", init, inv, length)
+            apa.append({"init": init, "inv": inv, "length": length, "outcome": outcome, "expected": want, "wall_s": wall})
+            if outcome != want:
+                rep.machinery_failure(f"Apalache obligation {init} / {inv} / length {length}: {outcome} (expected {want})")
+        rep.extra["apalache_inductive_invariant"] = apa
     if prop == "C18":
         jobs = c18_jobs(tier, seed)
         res = pool.run(workers.fault_cases, jobs, chunks_per_proc=8)
